@@ -942,7 +942,7 @@ func (g *G) ConcurrentPair() (a, b geom.Geometry, ok bool) {
 		// snapping buckets, so that crossings computed one ulp apart by different pairs fall on both sides
 		q := []int{2, 4, 8, 4, 2, 8, 3, 5, 7}[g.R.Intn(9)]
 		px, py := g.R.Range(q, (S-1)*q), g.R.Range(q, (S-1)*q)
-		axis := g.R.Intn(4) // 0: P on a horizontal lattice line, 1: on a vertical one (one ordinate of the crossing is then exact)
+		axis := g.R.Intn(5) // 0: P on a horizontal lattice line, 1: on a vertical one (one ordinate of the crossing is then exact)
 		if axis == 0 {
 			py -= py % q
 		} else if axis == 1 {
